@@ -154,7 +154,7 @@ def nameOf (n : Option Bytes) : String :=
 
 /-- a parsed schema element as Impl.Schema sees it -/
 def toElement (s : SchemaElement) : Element :=
-  ⟨⟨nameOf s.name, repOf s.repetition, s.type.map Int.toNat, s.typeLength, none⟩, s.numChildren⟩
+  ⟨⟨nameOf s.name, repOf s.repetition, s.type.map Int.toNat, s.typeLength, none, none⟩, s.numChildren⟩
 
 /-- the test of the validation loop of `build_schema` for element `i` (153ae4b) -/
 def elemBad (i : Nat) (e : SchemaElement) : Bool :=
